@@ -7,6 +7,7 @@
 From Coq Require Import String List Bool.
 From PM Require Import Semiring Poly Rel Analysis Calculus An_stmts.
 From PM Require An_closed.
+From PM Require Bound An_extra.
 From PMGen Require Import RulesGen.
 Import ListNotations.
 
@@ -50,7 +51,28 @@ Proof. exact side_conditions_are_documented. Qed.
    Bound.calculate reads columns (theorem C20_calculate_columns in props/C20.v); that the tool applies it
    to apply_choice(first) is checked on every real result by tools/props/c01.py (clause `bound`). *)
 
+(* ... and in the model: [An_extra.bound_of r cs] is Bound().calculate(r.apply_choice( *cs)) (model PM.Bound
+   of pymwp/bound.py; names as text, scalars as the strings of semiring.py).  For a function reported not
+   infinite and ANY accepted vector cs (the tool takes the first one of its choice object): the calculus
+   has a derivation A at cs, the bound has one entry per variable of the function, in order, and the entry
+   of v lists exactly the variables u with A u v = m as max-, = w as weak-, = p as polynomial-dependencies
+   (in the order of the variables) *)
+Theorem C01_bound_reads_derived_columns :
+  forall f stop res, func_ok f -> analyse f stop = ROk res -> fr_infinite res = false ->
+    exists r, fr_rel res = Some r /\
+    forall cs, vec_ok (fr_index res) cs -> accepted (fr_inf_deltas res) cs = true ->
+      let V := func_vars f in
+      exists A bd, fst (derive_func f cs) = Some A /\ An_extra.bound_of r cs = Some bd /\
+        map fst bd = map Bound.L V /\
+        forall v, In v V ->
+          Bound.dict_get bd (Bound.L v) =
+          Some (Bound.mb_of_lists (map Bound.L (filter (fun u => sc_eqb (A u v) M) V))
+                                  (map Bound.L (filter (fun u => sc_eqb (A u v) W) V))
+                                  (map Bound.L (filter (fun u => sc_eqb (A u v) P) V))).
+Proof. exact An_extra.bound_reads_derived_columns. Qed.
+
 Print Assumptions C01_valid_choices_and_matrices_are_the_derivations.
 Print Assumptions C01_statement_simulation.
 Print Assumptions C01_rule_table_is_documented.
 Print Assumptions C01_side_conditions_are_documented.
+Print Assumptions C01_bound_reads_derived_columns.
